@@ -50,6 +50,14 @@ def check_clusters(ctx, F):
     label_reads = [n for n in ast.walk(fo.node) if isinstance(n, ast.Attribute) and n.attr == "labels_"]
     ok = fit_s is not None and loop is not None and loop.lineno > fit_s.lineno and bool(label_reads) and \
         all(n.lineno > fit_s.lineno and ast.unparse(n) == "self.kmeans.labels_" for n in label_reads)
+    chained = False
+    if fit_s is None and loop is not None and len(label_reads) == 1 and \
+            ast.unparse(label_reads[0]) == "self.kmeans.fit(self.contexts).labels_":
+        # labels = self.kmeans.fit(self.contexts).labels_ : fit returns the estimator itself
+        st_ = parent(label_reads[0])
+        ok = isinstance(st_, ast.Assign) and st_ in body and body.index(st_) < body.index(loop) and \
+            isinstance(st_.targets[0], ast.Name)
+        chained = ok
     ctx.check(ok, "R12.1", "the clustering is fitted on the stored contexts before its labels are read and the "
               "cluster policies are trained", fo.node, fo,
               "expected the unconditional statement self.kmeans.fit(self.contexts) before every read of "
@@ -84,6 +92,8 @@ def check_clusters(ctx, F):
         if len(fits) == 1 and len(fits[0].args) == 3 and not fits[0].keywords:
             from ..model import canon_eq
             want_sel = canon_eq("self.kmeans.labels_", c)
+            if chained:
+                want_sel = canon_eq("self.kmeans.fit(self.contexts).labels_", c)
             sels = []
             bases = []
             for a in fits[0].args:
